@@ -47,6 +47,9 @@ def evalHsM (args : List String) : String :=
   let ok := ((r.splitOn " res=").getD 1 "").startsWith "ok"
   let m := Bmc.Proto.Metrics.step {} (if ok then .openOk else .openFail)
   let other := m.retries + m.cmdAttempts.length + m.cmdFailures.length + m.responses.length
-  s!"res={if ok then "ok" else "err"} attempts={m.sessAttempts} failures={m.sessFailures} open={m.sessOpen} other={other}"
+  -- an established session is then closed; the reply to Close Session is lost
+  let m2 := if ok then Bmc.Proto.Metrics.step m (.closeSess [.lost]) else m
+  let closed := if ok then "err" else "-"
+  s!"res={if ok then "ok" else "err"} attempts={m.sessAttempts} failures={m.sessFailures} open={m.sessOpen} other={other} closed={closed} close_attempts={Bmc.Proto.Metrics.cnt "Close Session" m2.cmdAttempts} open_after={m2.sessOpen}"
 
 end Bmc.Driver
